@@ -322,7 +322,7 @@ class CSSStyleDeclaration(CSS2Properties, cssutils.util.Base2):
             # the unexpected token may open a bracket which must be matched
             ignored = self._valuestr(
                 self._tokensupto2(
-                    tokenizer, starttoken=token, propertyvalueendonly=True
+                    tokenizer, starttoken=token, semicolon=True
                 )
             )
             self._log.error(
